@@ -698,6 +698,20 @@ func runC08(c *Ctx) {
 				c.Bad("R2.flip", spec.name+"|underlying call", w.FnPos(fr.entry), "no call of the underlying agent's "+spec.name)
 				return
 			}
+			// once the flag test has passed, the operation is decided by the underlying agent alone: no return with the
+			// flag at the required value is reachable without going through that call
+			if first := fn.Blocks[0].Instrs[0]; first != ssa.Instruction(agentCall) {
+				reach := ReachableAvoiding(first, map[ssa.Instruction]bool{agentCall: true})
+				for _, r := range liveReturns(fn) {
+					if !live(r.Block()) {
+						continue
+					}
+					if val, known := lockedIn(view, r.Block()); known && val == (spec.name == "Unlock") && reach(r) {
+						c.Bad("R2.flip", spec.name+"|decided by the underlying agent", w.Pos(r.Pos()), spec.name+" can answer, with the flag test passed, without asking the underlying agent (its own judgement of the passphrase or state replaces the agent's)")
+					}
+				}
+				c.Ok("R2.flip", spec.name+"|decided by the underlying agent: every other return", w.Pos(agentCall.Pos()), "returns under the passed flag test are reached through the underlying call only")
+			}
 			c.Check(len(agentCall.Call.Args) == 1 && w.ExprIn(fr.entry, agentCall.Call.Args[0]) == "p1", "R2.flip", spec.name+"|passphrase pass-through", w.Pos(agentCall.Pos()),
 				"passphrase parameter forwarded unchanged", "the passphrase handed to the underlying agent is not the method's parameter: "+w.Expr(agentCall.Call.Args[0]))
 			nStores := 0
